@@ -756,3 +756,56 @@ def name(u):
 
 def suffix(u):
     return UNQUOTER(raw_suffix(u))
+
+
+# ---------------------------------------------------------------- small constructors and accessors
+
+def from_parts_spec(scheme, netloc, path, query, fragment):
+    return U(scheme, netloc, path, query, fragment)
+
+
+def bpe_requires(scheme, authority, user, password, host, port, path, query_string, fragment):
+    return port is None or (0 <= port and port <= 65535)
+
+
+def raw_path_qs(u):
+    """the path (rooted under an authority) and, if there is one, '?' and the query"""
+    p = u.path if (u.path != "" or u.netloc == "") else "/"
+    return p + "?" + u.query if u.query != "" else p
+
+
+def path_qs(u):
+    q = query_string(u)
+    return path(u) if q == "" else path(u) + "?" + q
+
+
+def idna_decode(raw):
+    """IDNA decoding of an encoded host -- an external function (idna / the idna codec)"""
+    from yarl._url import _idna_decode
+    return _idna_decode(raw)
+
+
+def host(u):
+    """C16: IP literals are shown as stored, everything else IDNA-decoded"""
+    raw = raw_host(u)
+    if raw is None:
+        return None
+    if (raw != "" and prims.is_udigit(raw[-1:])) or ":" in raw:
+        return raw
+    return idna_decode(raw)
+
+
+def lemma_joinpath_requires(u, a, b, encoded):
+    return make_child_requires(u, (a, b), encoded)
+
+
+def lemma_joinpath_two_steps(u, a, b, encoded):
+    """C13: joinpath(a, b) == joinpath(a).joinpath(b) (outside the normalising branch), at the level of
+    the specification that _make_child is proved to refine"""
+    if a[:1] == "/" or b[:1] == "/":
+        return True
+    one = make_child(u, (a, b), encoded)
+    mid = make_child(u, (a,), encoded)
+    two = make_child(mid, (b,), encoded)
+    return (one.scheme == two.scheme and one.netloc == two.netloc and one.path == two.path
+            and one.query == two.query and one.fragment == two.fragment)
